@@ -159,7 +159,7 @@ def generate(seed: int, tier: str = "quick") -> dict:
     opts = {"twin": True}
     if interval == "1min" and R.sub(seed, "direct_drive").random() < 0.1:
         # the market driven without Actuator.run(): statuses that already carry their data row (as demeter's unit tests do)
-        opts = {"twin": False, "drive": "direct"}
+        opts = {"twin": False, "drive": R.sub(seed, "direct_drive_kind").choice(["direct", "direct", "direct_reuse_row"])}
         program = [o for o in program if o["phase"] != "trigger"]
         faults.append({"kind": "market_driven_without_the_actuator"})
     if interval != "1min" and not mw.get("via_files") and R.sub(seed, "earlier_run").random() < 0.2:
